@@ -6,6 +6,93 @@ COMMON_TRUST = [
 ]
 
 PROPS = {
+    "C14": dict(
+        modules=["Drpc.Props.C14", "Drpc.Tie.C14"],
+        suites=["http"],
+        rule="http suite: (unescape) ALL header strings over {%,=,0,9,a,f,A,F,g,space,0xff} to length 4 (5 in thorough) and over a "
+             "7-byte alphabet one longer, random strings to 200 bytes incl. 'mostly %' and valid-escape-heavy ones; (context) all "
+             "single entries to length 3 (4) and random 1-4 entry lists built with three escapers, duplicates, key-only and "
+             "malformed entries; (getcode) ALL error chains of <= 3 nodes over {Unwrap, Cause, Code()uint64 12/0, Code()string, "
+             "wrong-signature Code} x {leaf, Unwrap()=nil}, wrapper depths {98,99,100,101,150} in front of a code, random chains; "
+             "(stdlib) base64 of 0-39 byte strings and CR/LF/blank sanitising of ALL strings to length 4 (6) over {CR,LF,space,tab,"
+             "a,:,0xff} against encoding/base64 and strings.Replacer+textproto.TrimString; (reads) grpc headers of 0-4 bytes, "
+             "declared sizes {0..7,100,255,256,4096,32000,2^20,2^21+7,maxSize-1,maxSize,maxSize+1,2^24,2^31,2^32-1} x actual "
+             "{0..6, declared-1, declared, declared+1} x 3 flags, full bodies at the limit +-1 (as fills), twirp bodies of "
+             "{0..6,100,1000,32000,2^20,maxSize-1,maxSize,maxSize+1,maxSize+2,2*maxSize} bytes, result and allocation class; "
+             "(serve) drpchttp.New(handler).ServeHTTP on a ResponseRecorder for all 7 table content types + 15 unknown / case / "
+             "parameter variants + absent header, 0-5 messages of sizes {0,1,2,3,100} (and 4 MiB-1 / 4 MiB a few times), handler "
+             "stopping on or ignoring send errors, optional MsgRecv (+echo) of well-formed, empty, short, over-declared and "
+             "non-JSON bodies, 20 hostile error texts (CR, LF, CRLF, lone CR, forged trailer lines, blanks, non-ASCII, invalid "
+             "UTF-8, 10 kB) x drpc codes {0,1,2,12,2^64-1} x twirp code strings inside and outside the table x wrap depth x "
+             "nil-unwrap, 0-3 metadata headers: status, Content-Type, body bytes (Twirp error body after parsing it back), the "
+             "acknowledgement of every send and the metadata seen by the handler are compared with the model. A case is "
+             "non-trivial when the header contains '%' (unescape) / '=' or '%' (context), the chain is non-empty (getcode), the "
+             "input has >= 3 (b64) / >= 2 (sanitize) / >= 5 (grpcread) / >= 1 (twirpread) bytes, or the exchange has a message, a "
+             "receive or an error (serve); distinct by hash of the request",
+        trusted=COMMON_TRUST + [
+            "net/http (Header.Get, ResponseRecorder), encoding/json, encoding/base64, strings.Replacer, textproto.TrimString, "
+            "io.ReadFull/ReadAll/LimitReader and reflect are stdlib: base64, the replacer+trim and the read rules are re-modelled in "
+            "Lean and compared with the stdlib by the suite; the JSON error body is checked by parsing it back in Go "
+            "(code/msg up to encoding/json's U+FFFD replacement), not modelled byte for byte",
+            "the suite's pass-through byte encoding has no JSONMarshal/JSONUnmarshal, so JSON modes use drpchttp's fallback "
+            "(a JSON string holding base64); request bodies in JSON modes are limited to ones on which encoding/json and the "
+            "model's unmarshal (quote + base64 + quote, else error) agree (no escapes inside the string)",
+            "absence of real Go panics / out-of-bounds reads and the allocation class (runtime.MemStats) are evidenced by the "
+            "correspondence runs; the Lean theorems prove them for the model's explicit panic outcomes and allocation outputs",
+        ],
+        assumptions=["grpcweb_body: the trailer block is shorter than 2^32 bytes (uint32 length field)",
+                     "error values are chains of the five node kinds of Drpc/Http/GetCode.lean ending in a leaf or in Unwrap()=nil"],
+    ),
+    "C17": dict(
+        modules=["Drpc.Props.C17", "Drpc.Tie.C17"],
+        suites=["gen"],
+        rule="gen suite: descriptor families (one Go package of 1-4 proto files, optionally a second package holding the message "
+             "types) are turned into CodeGeneratorRequests by hand (no protoc), run through protoc-gen-go / protoc-gen-gogo "
+             "(module cache) and through protoc-gen-go-drpc BUILT FROM /repo's working tree: the matrix of the 4 method shapes x "
+             "4 protolib settings x json on/off/default, every collision class with near misses, hostile names (keywords, "
+             "underscores, case-only differences, digits, runtime method names, nested / empty proto packages, go_package "
+             "variants incl. ;name and M flags, package and import-path base names drpc/context/errors/proto, source_relative, "
+             "multi-file packages, zero services / zero methods, 4x6 methods) and random families (0-4 services x 0-6 methods, "
+             "random names from a hostile vocabulary, every option); every declaration of the generated file (types with method "
+             "sets and signatures, functions, methods, rpc strings on both sides, every Description case with the receiver's "
+             "argument wiring, NumMethods) is compared with the model's emission for the Go names protogen derives; plus "
+             "mux.reg: ALL method-expression arities (0-4 inputs over 4 parameter kinds x 0-3 results) registered on a real "
+             "drpcmux.Mux, stored rpcData read back and HandleRPC's arguments observed. A generator case is non-trivial when "
+             "the package has >= 2 methods, a mux case when it has >= 2 inputs; distinct by hash of the request",
+        trusted=["protogen (Go-name derivation, import qualification, output file naming) and protoc-gen-go / protoc-gen-gogo are "
+                 "trusted; Go names enter the model as arbitrary identifier strings",
+                 "'the generated file type-checks for every descriptor' is NOT a Lean theorem (it would need a model of Go's type "
+                 "system): it rests on the go/types runs of the suite over the generated descriptors (all of them) and on go build "
+                 "+ execution of a subset (generated client <-> generated server over net.Pipe, every method shape, every protolib)",
+                 "reflect (FuncOf, Type.In/NumIn/NumOut) as documented"],
+        assumptions=["proto identifiers contain no '/' (rpc_name_injective)",
+                     "CollisionFree (decidable, evaluated by suite and model on every descriptor) for names_distinct_partial; "
+                     "descriptors outside it are the known finding C17-name-collision"],
+        timeout=dict(quick=300, thorough=3600),
+    ),
+    "C11": dict(
+        modules=["Drpc.Props.C11", "Drpc.Tie.C11"],
+        suites=["meta"],
+        rule="meta suite: (codec) single entries over key/value lengths {0,1,127,128,16383,16384} compared byte for byte, random maps "
+             "of 0-20 pairs (empty / boundary-length / binary / duplicate-prone strings) whose Encode output must be the model's "
+             "encoding of some ordering of exactly those entries, entry lists with duplicate keys, Decode on ALL strings of length "
+             "<= 3 (5 thorough) over {00,01,02,0a,12,7f,80,81,ff}, all entry-shaped strings `0a L body` with body <= 4 (6 thorough) bytes over "
+             "{00,01,02,0a,12}, hostile length fields in the three length positions, mutated / truncated valid encodings, random "
+             "bytes; (scoping) sequences of 1-4 calls on one connection written as raw frames to a real server-side "
+             "drpcmanager.Manager over net.Pipe: calls with / without metadata, metadata abandoned before its invoke, metadata "
+             "repeated on one id, empty and undecodable metadata packets, trailing metadata, three ways of ending each stream, "
+             "both cancel modes, one write or one write per packet. A case is non-trivial when the input has >= 2 bytes (decode), "
+             ">= 1 entry (encode) or >= 2 packets (serve); distinct by hash of the request",
+        trusted=COMMON_TRUST + ["a Go map is modelled as the list of its writes in order, observed through `Pairs.get` (last write wins); "
+                                "Go's unspecified map iteration order in Encode / AddPairs is covered by proving the codec theorems for "
+                                "every order and by checking that Go's bytes are the model's encoding of some order",
+                                "scoping is proved for NewServerStream's packet loop as a function of the packets handed to it; which "
+                                "packets reach it (manageReader's routing, the reader's id monotonicity) is exercised by the suite on the "
+                                "real Manager, not modelled"],
+        assumptions=["key length + value length + 22 < 2^64 for every entry (Go strings in memory are far below that)",
+                     "the context passed to NewServerStream carries no metadata of its own (drpcmetadata.Add writes into the map of a "
+                     "parent context in place; the harness, like drpcserver, uses a metadata-free connection context)"],
+    ),
     "C08": dict(
         modules=["Drpc.Props.C08", "Drpc.Tie.C08"],
         suites=["wire"],
@@ -31,10 +118,119 @@ PROPS = {
                      "invisible by an oracle on the implementation; 100 give InternalError)"],
     ),
     "C03": dict(
-        modules=["Drpc.Stream.Conc"],
+        modules=["Drpc.Props.C03", "Drpc.Tie.C03"],
         suites=["stream"],
-        rule="stream suite (work in progress)",
-        trusted=COMMON_TRUST,
-        assumptions=[],
+        mismatch_is_violation=True,
+        rule="stream suite: a real drpcstream.Stream under the director (every transport write parks, every call on its own "
+             "goroutine, observation only at stop-the-world-verified quiescence); (A) random sequential histories of 2-10 "
+             "calls/packets over the full alphabet (send sizes around the split size, raw kinds, flush, recv incl. a failing "
+             "Unmarshal, close, send-error, close-send, send-cancel, cancel, packets of kinds 0..7, 9, 63 with/without control "
+             "bit and with a foreign id) under 7 split/flush/writer-buffer configurations; (B) histories of 4-17 actions with "
+             "transport writes, Marshal and Unmarshal parked while other calls are issued, writes released ok or failing; "
+             "compared after every action: results of returned calls, pending set, parked write, completed writes, "
+             "Terminated/Finished/ctx.Done. Non-trivial: >= 2 actions and >= 1 change of the T/F/C flags; distinct by hash",
+        trusted=COMMON_TRUST + ["Go runtime: sync.Mutex/Cond/Once, atomics are sequentially consistent; the model merges "
+                                "thread-local steps into the preceding shared step (they commute with all other threads' steps)",
+                                "quiescence detection: one stop-the-world runtime.Stack snapshot in which every goroutine but the "
+                                "director is in a channel/mutex/cond wait, confirmed by a second identical snapshot"],
+        assumptions=["histories of the parked kind keep at most one waiter per lock (generator rule), so that the quiescent "
+                     "state does not depend on the Go scheduler; user encodings do not retain the lent buffer"],
+    ),    "C10": dict(
+        modules=["Drpc.Props.C10", "Drpc.Tie.C10"],
+        suites=["errs"],
+        rule="errs suite: (a) MarshalError/UnmarshalError on codes {0,1,2,12,2^32,2^63,2^64-1,random} x messages {empty, 1 byte, "
+             "70000 bytes, '%' verbs, NUL, invalid UTF-8, random}, raw data of every length 0..20 (all strings over a 6-byte "
+             "boundary alphabet to length 3, random, verb-laden) and long; (b) drpcerr.Code / Error() / MarshalError on real Go "
+             "error values built from a chain description shared with the model (errors.New, WithCode, custom Code() types, "
+             "errs.Wrap, class wraps, fmt.Errorf %w, custom Cause/Unwrap types incl. nil-returning, self-returning and "
+             "2-cycles) at depths {0,1,2,50,99,100,101} x 6 wrapper mixes x 7 codes, fixed order/collapse cases, random chains; "
+             "(c) end-to-end over net.Pipe with a real drpcserver + drpcconn and either a hand-written drpc.Handler or a real "
+             "drpcmux with a hand-written description: 4 RPC shapes x k in {0,1,3} responses x message classes x codes, deep "
+             "codes, dispatcher failures (hostile unknown rpc names, undecodable request, unmarshallable response), success, "
+             "each followed by a probe RPC, every wait bounded by 2 s; a case is non-trivial when (a) the message is non-empty, "
+             "(b) the chain has >= 2 wrappers or a non-zero code below a wrapper, (c) the handler sent a message or failed; "
+             "distinct by hash of the request",
+        trusted=COMMON_TRUST + [
+            "error values are modelled as an inductive type (methods present, what they return, Error() text); typed-nil "
+            "pointers and Error() methods with side effects are outside the model",
+            "the model of strconv.Quote (%q in the unknown-rpc text) is exact for ASCII and for bytes that are not part of a "
+            "valid multi-byte UTF-8 sequence; the suite only uses such rpc names",
+            "end-to-end statement: the composition server send half -> packets -> client receive half is a sequential model; "
+            "in-order delivery of packets to HandlePacket and the absence of transport faults / cancellation are assumed "
+            "(C01/C05); the correspondence runs observe the real concurrent code over net.Pipe",
+        ],
+        assumptions=["the handler did not close its send side before returning an error (excluded point: "
+                     "error_after_closesend_counterexample)",
+                     "auto-flush, or ManualFlush with an empty writer (excluded point: manual_flush_masks_error_counterexample)",
+                     "code attached below fewer than 100 wrappers (99 through drpcmux) (excluded point: "
+                     "code_depth_100_counterexample)",
+                     "the client keeps receiving; no transport fault, no cancellation"],
+    ),
+    "C18": dict(
+        modules=["Drpc.Props.C18", "Drpc.Tie.C18"],
+        suites=["compat"],
+        rule="compat suite: the released v0.0.17 runs unmodified in a child process (/verif/oldwire, built from the module "
+             "cache), the working tree in-process; every byte stream goes through both readers and, via the request line, "
+             "through both Lean models under 2-7 chunkings (all-at-once, 1 byte, 7 bytes, frame-aligned, frame-straddling, "
+             "scanner-buffer-sized, random). Streams: all 256 first bytes alone and after an unfinished packet; emissions of the "
+             "current Writer/SplitN (split sizes {1,7,1024,65536,-1,0}, ids over all varint lengths up to 2^64-1, empty and "
+             "multi-frame payloads, 30% control packets: soft cancels, unknown control kinds 8-63, known kinds with the bit) "
+             "for reader maxima {4 MiB, 100000, 1000}; a soft-cancel / unknown control packet inserted at every position of a "
+             "sequence; emissions of the v0.0.17 Writer/SplitN and of real v0.0.17 Streams driven by API-call scripts; real "
+             "current Streams driven by scripts incl. SendCancel at every position; 12 kinds of unusual/malformed mutations "
+             "(id reuse, (0,0)/(0,m)/(s,0) ids, kind 0, control flips, control frame with a higher id, swaps, truncation, "
+             "garbage tail, over-long varint); many medium frames across the scanner's 4 KiB-1 MiB buffer steps; frames of "
+             "1 MiB-1/1 MiB/1 MiB+1 encoded bytes and packets of 4 MiB-1/4 MiB/4 MiB+1 payload bytes; metadata maps (valid "
+             "UTF-8, lengths around 127/128 and 16383/16384) encoded by each version and decoded by the other; real Streams fed "
+             "every kind 0-63 x control bit (fresh and after CloseSend) and random packet sequences. A case is non-trivial when "
+             "the stream has >= 2 frames (read), the packet list >= 2 packets / the packet >= 2 frames (emit/split), the script "
+             ">= 2 calls, the map >= 1 entry; distinct by hash of the request",
+        trusted=COMMON_TRUST + [
+            "v0.0.17 is the module storj.io/drpc@v0.0.17 in the module cache (go.sum-verified), built with go1.26.8: its "
+            "bufio.Scanner is today's standard library; the Lean model of the old reader covers token splitting, the "
+            "shift/double-up-to-1MiB buffer policy, the atEOF call and the sticky first error, not the 100-empty-reads guard",
+            "constants of v0.0.17 (4 KiB/1 MiB scanner buffer, 4 MiB packet limit, 1024 default split) are hand-copied from the "
+            "immutable release and tied by the boundary cases of the suite",
+            "the (n>0, err) placement of the transport's final error is modelled as arriving on the next read; for v0.0.17 this "
+            "is invisible for io.EOF and for complete frame sequences (oracle), not for a non-EOF error on a malformed tail",
+            "HandlePacket is modelled as a sequential function of the signals it sets; pbuf.Put hands the message to a waiting "
+            "receiver (the suite always has one)",
+        ],
+        assumptions=["frames within the v0.0.17 token limit (encoded frame <= 1 MiB) and packets within 4 MiB (one byte more: "
+                     "ErrTooLong / ProtocolError, exercised by the suite)",
+                     "WellFormed sequences: what either writer or stream layer produces (new_emits_wellformed, "
+                     "old_emits_wellformed); outside it the readers differ (mixed_control_excluded, id_reuse_excluded)",
+                     "metadata keys and values are valid UTF-8 (excluded point: known finding C18-metadata-non-utf8)",
+                     "transport delivers bytes in order, in non-empty reads"],
+    ),
+    "C16": dict(
+        modules=["Drpc.Props.C16", "Drpc.Tie.C16"],
+        suites=["migrate"],
+        rule="migrate suite, real ListenMux / listener / prefixConn / HeaderConn over in-memory fakes: (mroute) one connection "
+             "through the running mux for EVERY split of streams <= 10 bytes (12 in thorough) into reads, prefix lengths "
+             "{0,1,4,8}, registered / near-miss / truncated prefixes, final error attached or not, hostile read sizes of the "
+             "acceptor, plus random route tables; (hdr) HeaderConn.Write from 2-3 goroutines with the underlying Write parked, "
+             "every order of calls and completions (driven by what is really parked), repeated writes, failing underlying "
+             "writes, sequential write patterns; (mux) schedules of Route / Accept / Close / cancel / base failure relative to "
+             "connections whose bytes arrive piecemeal: all orderings of a 7-operation family for 6 terminating events and 3 "
+             "prefix lengths, two connections racing for one route, fixed hostile schedules, random schedules; after every "
+             "operation the process runs to quiescence (one stop-the-world goroutine snapshot). Non-trivial: mroute with >= 2 "
+             "bytes and >= 2 reads; hdr with a Write called while another is parked; mux with an API call issued while a "
+             "routeConn or Accept is blocked. Distinct by hash of the request",
+        trusted=COMMON_TRUST + [
+            "sync.Once, sync.Mutex, unbuffered channels and select are modelled by their documented semantics (Once.Do blocks "
+            "later callers until the function returned; a select with several ready arms may take any)",
+            "the critical sections of m.mu that cannot block (Route, routeConn's look-up, monitorListener's delete) and the "
+            "functions passed to listener.once / m.once are single atomic steps; Run's blocking critical section is stepwise",
+            "quiescence on the Go side = every goroutine but the harness is in a channel / select / mutex / cond wait in one "
+            "stop-the-world runtime.Stack snapshot; the deterministic replay on the model serves channel waiters first-come "
+            "first-served as the Go runtime does (the theorems cover every choice)",
+        ],
+        assumptions=["net.Conn contract: Read returns 0 < n <= len(p) bytes in order while data remains, then its final error; "
+                     "concurrent Writes on the underlying connection are serialised (completed writes form a sequence)",
+                     "header_once_first is stated for runs without a failed underlying write (after a failed write the "
+                     "connection is dead; header_n_excludes_header covers failing writes too)",
+                     "a client that sends fewer than prefixLen bytes and never closes keeps its routeConn goroutine in "
+                     "ReadFull (the code has no timeout there; reported as pending, not as delivered or closed)"],
     ),
 }
